@@ -192,6 +192,43 @@ def make_overlay(work, extra=None):
     return p
 
 
+MODPATH = "github.com/anthdm/hollywood"
+SHIMMED = [   # (file, import map, rewrite go statements)
+    ("actor/inbox.go", {"sync/atomic": "yatomic", MODPATH + "/ringbuffer": "yring"}, True),
+    ("actor/registry.go", {"sync": "ysync"}, False),
+    ("ringbuffer/ringbuffer.go", {"sync/atomic": "ratomic", "sync": "rsync"}, False),
+]
+
+
+def shim_overlay(work):
+    """overlay entries of the scheduler-shimmed build: the shim packages as
+    virtual directories REPO/verifshim/*, and import-rewritten copies of the
+    current inbox.go / registry.go / ringbuffer.go (generated afresh)"""
+    tools = os.path.join(VERIF, "tools")
+    gen = work.path("shimgen")
+    if not os.path.exists(gen):
+        rc, out = sh(["go", "build", "-o", gen, "."], cwd=os.path.join(tools, "shimgen"), env=dict(GOENV), timeout=300)
+        if rc != 0:
+            raise RuntimeError("shimgen build failed: " + out)
+    repl = {}
+    vs = os.path.join(tools, "verifshim")
+    for virt, real in (("vsched", "vsched/vsched.go"), ("yatomic", "yatomic/yatomic.go"), ("ratomic", "yatomic/yatomic.go"),
+                       ("ysync", "ysync/ysync.go"), ("rsync", "ysync/ysync.go"), ("yring", "yring/yring.go")):
+        repl[os.path.join(REPO, "verifshim", virt, os.path.basename(real))] = os.path.join(vs, real)
+    os.makedirs(work.path("shim"), exist_ok=True)
+    for (f, imap, gos) in SHIMMED:
+        out_f = work.path("shim", f.replace("/", "_"))
+        m = ",".join("%s=%s/verifshim/%s" % (k, MODPATH, v) for k, v in imap.items())
+        cmd = [gen, "-in", os.path.join(REPO, f), "-out", out_f, "-map", m]
+        if gos:
+            cmd += ["-vsched", MODPATH + "/verifshim/vsched"]
+        rc, out = sh(cmd, timeout=60)
+        if rc != 0:
+            raise RuntimeError("shimgen failed on %s: %s" % (f, out))
+        repl[os.path.join(REPO, f)] = out_f
+    return repl
+
+
 def build_harness(work, binary="hv", tags="verif", extra_overlay=None):
     """build the harness against the current working tree of REPO.  The
     module file is generated (replace => REPO) so that nothing under /verif
@@ -201,6 +238,11 @@ def build_harness(work, binary="hv", tags="verif", extra_overlay=None):
     open(modfile, "w").write(modsrc)
     shutil.copy(os.path.join(REPO, "go.sum"), work.path("go.sum"))
     out_bin = work.path(binary)
+    if binary == "hvs":
+        try:
+            extra_overlay = dict(extra_overlay or {}, **shim_overlay(work))
+        except RuntimeError as e:
+            return None, str(e)
     overlay = make_overlay(work, extra_overlay)
     cmd = ["go", "build", "-modfile", modfile, "-tags", tags, "-overlay", overlay,
            "-o", out_bin, "./cmd/" + binary]
@@ -223,8 +265,8 @@ def run_harness(binary, family, cases, timeout=1800, args=()):
 
 
 def run_harness_parallel(binary, family, cases, nproc=None, timeout=1800, args=()):
-    nproc = nproc or NCPU
-    if len(cases) < 2 * nproc:
+    nproc = min(nproc or NCPU, len(cases))
+    if nproc < 2:
         return run_harness(binary, family, cases, timeout, args)
     chunks = [cases[i::nproc] for i in range(nproc)]
     with ThreadPoolExecutor(max_workers=nproc) as ex:
